@@ -21,7 +21,8 @@ Options == DOMAIN Defaults
 (* line records:
    [k |-> "sec", name, src]
    [k |-> "opt", o, src, ok, val]      ok = the value token is well-formed; val = documented setting (conf syntax)
-   [k |-> "cont", src, vals]           continuation line: value applied to the previous option NAME; vals = [option |-> [ok, val]]
+   [k |-> "cont", src, vals (, sec)]   continuation line: value applied to the previous option NAME; vals = [option |-> [ok, val]];
+                                       sec: the section it opens when there is no previous key (text starting with "[")
    [k |-> "other", src, keepsName]     comment, blank, unknown option, garbage; keepsName: does the "previous name" survive it *)
 
 RECURSIVE SeqsUpTo(_)
@@ -42,7 +43,8 @@ Walk(file) ==
                            ELSE [st EXCEPT !.prev = l.o, !.allowed[l.o] = @ \cup {Defaults[l.o]},
                                            !.impl[l.o] = IF l.resets THEN Defaults[l.o] ELSE @]
                  [] l.k = "cont" ->
-                      IF st.prev \notin Options \/ st.sec # "snoopy" THEN st
+                      IF st.prev = "" /\ "sec" \in DOMAIN l THEN [st EXCEPT !.sec = l.sec]     \* no key to continue: an indented "[name] ..." is a section header
+                      ELSE IF st.prev \notin Options \/ st.sec # "snoopy" THEN st
                       ELSE LET m == l.vals[st.prev] IN
                            IF m.ok THEN [st EXCEPT !.allowed[st.prev] = {m.val}, !.impl[st.prev] = m.val]
                            ELSE [st EXCEPT !.allowed[st.prev] = @ \cup {Defaults[st.prev]},
